@@ -250,6 +250,28 @@ def recon_checks(ctx, trials=None, parts=ALL_PARTS):
                 f = 0.5 * np.linalg.norm(Ew @ x.ravel() - yy) ** 2 + lam / 2 * np.linalg.norm(x) ** 2
                 if f - fs > 2e-3 * max(1.0, fs):
                     out.append((["C16"], "senserecon_weighted", "SenseRecon(weights, lamda=%s, batch=%s): weighted objective %.6g vs optimum %.6g" % (lam, bsz, f, fs)))
+        # measured samples that are EXACTLY zero in every coil, with positive weights given: they are data (the documented
+        # objective counts them), not unsampled locations
+        if "B" in parts:
+            yz = yw.copy()
+            yz[:, 0, 1] = 0
+            yz[:, 2, 3] = 0
+            wz = np.where(wts > 0, wts, 1.0)
+            Ez = np.vstack([np.diag(np.sqrt(wz).ravel()) @ F @ np.diag(mps[k].ravel()) for k in range(nc)])
+            yyz = (np.sqrt(wz)[None] * yz).ravel()
+            for name, lamz, mkz in (("SenseRecon", 0.05, lambda: sp.mri.app.SenseRecon(yz.copy(), mps, lamda=0.05, weights=wz.copy(), show_pbar=False, max_iter=100)),
+                                    ("SenseRecon(all-ones weights)", 0.05, lambda: sp.mri.app.SenseRecon(yz.copy(), mps, lamda=0.05, weights=np.ones(shape), show_pbar=False, max_iter=100))):
+                n_eval += 1
+                Eu = Ez if "ones" not in name else E
+                yu = yyz if "ones" not in name else yz.ravel()
+                xsz = np.linalg.solve(Eu.conj().T @ Eu + lamz * np.eye(16), Eu.conj().T @ yu)
+                fsz = 0.5 * np.linalg.norm(Eu @ xsz - yu) ** 2 + lamz / 2 * np.linalg.norm(xsz) ** 2
+                with warnings.catch_warnings():
+                    warnings.simplefilter("ignore")
+                    xz = mkz().run()
+                fz = 0.5 * np.linalg.norm(Eu @ xz.ravel() - yu) ** 2 + lamz / 2 * np.linalg.norm(xz) ** 2
+                if fz - fsz > 2e-3 * max(1.0, fsz):
+                    out.append((["C16"], "senserecon_weighted", "%s with data that are exactly zero at two weighted locations: documented objective %.6g vs optimum %.6g" % (name, fz, fsz)))
         if trial == 0 and "3d" in parts:
             sh3 = (2, 3, 2)
             F3 = centred_dft(sh3)
